@@ -276,10 +276,24 @@ cdef CSR _dimensions_csr_sparse(CSR matrix, _Indexer index):
         mem.PyMem_Free(idx_lookup)
 
 @cython.cdivision(True)
+cdef int _check_dimensions_size(_Indexer index, size_t rows, size_t cols) except -1:
+    """
+    The product of the dimensions must be the size of every side of the matrix
+    that is permuted (the sides of length one are left alone).
+    """
+    if (rows != 1 and rows != index.size) or (cols != 1 and cols != index.size):
+        raise ValueError(
+            "the product of the dimensions (" + str(index.size) + ") is not "
+            "the size of the matrix: " + str((rows, cols))
+        )
+    return 0
+
+
 cpdef CSR dimensions_csr(CSR matrix, object dimensions, object order):
     cdef _Indexer index = _Indexer(np.asarray(dimensions, dtype=idxint_dtype),
                                    np.asarray(order, dtype=idxint_dtype))
     cdef idxint[:] permutation
+    _check_dimensions_size(index, matrix.shape[0], matrix.shape[1])
     if matrix.shape[0] == 1 and matrix.shape[1] == 1 or csr.nnz(matrix) == 0:
         return matrix.copy()
     if matrix.shape[0] == 1:
@@ -306,6 +320,7 @@ cpdef CSR dimensions_csr(CSR matrix, object dimensions, object order):
 cpdef Dense dimensions_dense(Dense matrix, object dimensions, object order):
     cdef _Indexer index = _Indexer(np.asarray(dimensions, dtype=idxint_dtype),
                                    np.asarray(order, dtype=idxint_dtype))
+    _check_dimensions_size(index, matrix.shape[0], matrix.shape[1])
     cdef idxint[:] permutation = index.all()
     row_perm, col_perm = None, None
     if matrix.shape[0] != 1:
